@@ -12,5 +12,6 @@ Definition rel_C05 (m o : obs) : bool :=
   zlist_eqb (o_started m) (o_started o) && zlist_eqb (o_consulted m) (o_consulted o).
 
 Definition case := wcase.
-Definition verdict (c : case) : nat := classify rel_C05 c.
+Definition verdict (c : case) : nat :=
+  if negb (mon_nohang c) then 1 (* a caller hangs *) else classify rel_C05 c.
 Definition mismatches (cs : list case) : list (nat * nat) := collect verdict 0 cs.
